@@ -89,7 +89,8 @@ def predicate(layer, cfg, stage, exc, msg):
     if lo and hi and any(a is not None and b is not None and a == b for a, b in zip(lo, hi)):
       return "zero_input_range"
   if exc == "TypeError" and "not all arguments converted during string formatting" in m:
-    return "error_message_formatting"
+    # still open: the message of the repeated-dimension check of a joint unimodality (lattice_lib)
+    return "joint_unimodality_message_formatting" if cfg.get("joint_unimodalities") else "error_message_formatting"
   if layer == "PWLCalibration" and cfg.get("is_cyclic") and cfg.get("kernel_initializer") == "equal_slopes" and exc == "TypeError":
     return "cyclic_equal_slopes"
   if layer == "PWLCalibration" and "Clamping is not implemented" in m:
@@ -680,7 +681,8 @@ def check_layer(ctx, layer, cfg, seed, lines=None, pend=None):
       c = dict(lattice_sizes=list(L.lattice_sizes), monotonicities=L.monotonicities, unimodalities=L.unimodalities,
                edgeworth_trusts=L.edgeworth_trusts, trapezoid_trusts=L.trapezoid_trusts,
                monotonic_dominances=L.monotonic_dominances, range_dominances=L.range_dominances,
-               joint_monotonicities=L.joint_monotonicities, joint_unimodalities=None)
+               joint_monotonicities=L.joint_monotonicities, joint_unimodalities=None,
+               output_min=L.output_min, output_max=L.output_max)
       ju = L.joint_unimodalities
       if ju is None or _ju_typed(ju) is not None:
         c["joint_unimodalities"] = _ju_typed(ju) if ju is not None else None
